@@ -51,6 +51,9 @@ def make_sample(spec):
         return rng.standard_t(1.5, size=(n, 2)) * 2.0 + np.array([1.0, -2.0])
     if kind == "ties":
         return np.round(rng.gamma(2.0, 2.0, size=(n, 2)))
+    if kind == "ties_int":
+        # integer-typed ndarray (counts / rounded measurements stored as int64 or int32)
+        return np.round(rng.gamma(2.0, 2.0, size=(n, 2)) * 3.0 - 4.0).astype(np.int64 if n % 2 else np.int32)
     if kind == "clusters":
         centers = np.array([[0.0, 0.0], [10.0, 1.0], [4.0, 12.0]])
         idx = rng.integers(0, 3, size=n)
@@ -67,7 +70,7 @@ def make_sample(spec):
     raise ValueError(kind)
 
 
-CLOUDS = ["gauss_corr", "heavy", "ties", "clusters", "lognormal", "collinear", "uniform_disc", "model"]
+CLOUDS = ["gauss_corr", "heavy", "ties", "clusters", "lognormal", "collinear", "uniform_disc", "model", "ties_int"]
 
 # ------------------------------------------------------------------------------------------------ polygon check
 
